@@ -18,6 +18,12 @@ NOT_APPLICABLE = {
 }
 
 CHECKS = {
+    "C17": {
+        "level_text": "Proof per instantiation over all leaf values and variants (Option, Result, Poll, tuples of arity 2 and 4, nesting depth 2; Owning/Lending/StaticRef leaves); Vec containers bounded in the element count (reported as bounded). Partial: the macro's choice of output kind is not covered.",
+        "design_ref": "DESIGN.md §4 C17",
+        "level_note": "Trusted: Kani/CBMC; parametricity in the leaf type; catalogue of instantiations.",
+        "technique": "function contracts: Kani full-domain contract harnesses per container x leaf-kind instantiation",
+    },
     "C12": {
         "level_text": "Proof per instantiation over all leaf values (u8 leaves; generic impls are parametric in T): single-use vs repeatable contracts of Owning and of the builder paths that choose between them, and of the composite containers. Partial: races between threads and the compile-fail half are out of reach.",
         "design_ref": "DESIGN.md §4 C12",
